@@ -181,6 +181,9 @@ def handleSpecial (stream : String) (args : List String) : String :=
   | "hpktbuf", _ => "noncompared"
   | "rtcpmarshal", _ => "noncompared"
   | "sctpflood", _ => "noncompared"
+  | "rtprecv", _ => "noncompared"
+  | "rtpflood", _ => "noncompared"
+  | "iceflood", _ => "noncompared"
   | "mediaflood", _ => "noncompared"
   | "turnclient", _ => "noncompared"
   | "sdpsdes", _ => "noncompared"
